@@ -31,6 +31,8 @@ func init() {
 			c09SanitizeKeepsVersions(r)
 			c04ReplicaVerbatim(r)
 			c03PreviousOwners(r)
+			tableUpdateWritesVersion(r, "update-writes-version")
+			configSanitizeFillsOnly(r, "sanitize-fills-only")
 		},
 	})
 }
